@@ -65,37 +65,25 @@ func (sc *C14Scenario) exec(r *C14Run) {
 		r.err = "NewPoint: " + err.Error()
 		return
 	}
-	simrt.SetRunOrder(r.order)
 	if r.budget == 0 {
 		r.budget = stepBudgetPerRun
 	}
-	simrt.SetStepBudget(r.budget)
-	simrt.Active = true
-	func() {
-		defer func() {
-			if p := recover(); p != nil {
-				r.panicked = fmt.Sprint(p)
-			}
-		}()
+	res, aborted, steps := runUnderScheduler(r.order, r.budget, func() Result {
+		var ids []string
 		var e error
 		switch r.Kind {
 		case "line":
-			r.ids, e = shape.GetExtendedSpatialIdsOnLine(a, b, sc.HZ, sc.VZ)
+			ids, e = shape.GetExtendedSpatialIdsOnLine(a, b, sc.HZ, sc.VZ)
 		case "measured":
-			r.ids, e = transform.GetExtendedSpatialIdsWithinRadiusOfLine(a, b, sc.Radius, sc.HZ, sc.VZ, false)
+			ids, e = transform.GetExtendedSpatialIdsWithinRadiusOfLine(a, b, sc.Radius, sc.HZ, sc.VZ, false)
 		case "skipped":
-			r.ids, e = transform.GetExtendedSpatialIdsWithinRadiusOfLine(a, b, sc.Radius, sc.HZ, sc.VZ, true)
+			ids, e = transform.GetExtendedSpatialIdsWithinRadiusOfLine(a, b, sc.Radius, sc.HZ, sc.VZ, true)
 		}
-		r.err = errStr(e)
-		own := r.ids
-		r.ids = append([]string(nil), own...)
-		scribbleStrings(own) // the caller owns the returned slice
-	}()
-	simrt.Active = false
-	simrt.SetRunOrder(nil)
-	r.aborted = simrt.Aborted
-	r.steps = simrt.Steps
-	simrt.SetStepBudget(0)
+		return strs(ids, e) // copies, then overwrites the returned slice: the caller owns it
+	})
+	r.ids, r.err, r.panicked = res.Raw, res.Err, res.Panic
+	r.aborted = aborted
+	r.steps = steps
 	r.set = map[string]bool{}
 	for _, id := range r.ids {
 		r.set[id] = true
